@@ -137,6 +137,7 @@ type Unit struct {
 	escapeMemo    map[*ssa.Alloc]bool
 	fnConsts      map[string]*ssa.Function
 	fnConstOrder  []Term
+	axiomFacts    []string
 	localCells    []localCell
 	implOf        string
 	coverStatus   string
